@@ -191,5 +191,15 @@ func c08(r *h.Result, rng *h.Rng, tier string, replay string) error {
 	if err := c08Sem(r, rng.Fork(), ns); err != nil {
 		return err
 	}
+	// the labelled path: selectors with label-rewriting stages, quantile_over_time
+	if err := c08TextX(r, rng.Fork(), n, mgen{extraFns: true, ms: tier != "quick"}); err != nil {
+		return err
+	}
+	if err := c08SemX(r, rng.Fork(), ns); err != nil {
+		return err
+	}
+	if err := c08Order(r, rng.Fork(), 40); err != nil {
+		return err
+	}
 	return nil
 }
